@@ -69,6 +69,8 @@ type EncOpts struct {
 	RawWrapped    []byte                     // EncryptedKey CipherValue octets override
 	OmitKeyCipher bool                       // no EncryptedKey CipherValue at all
 	SymKey        []byte                     // fixed symmetric key (else random)
+	WrapLastOctet *byte                      // the same for the wrapped key (RSA encryption is randomised)
+	LastOctet     *byte                      // honest encryption repeated (fresh IV / nonce) until the ciphertext ends in this octet
 }
 
 func oaepHash(d string) (hash.Hash, error) {
@@ -147,9 +149,14 @@ func (b *Builder) EncryptedAssertion(plain []byte, o EncOpts) (*etree.Element, e
 	if o.RawCipher != nil {
 		ct = o.RawCipher
 	} else {
-		ct, err = EncryptRaw(o.DataAlg, sym, plain, o.MutatePlain)
-		if err != nil {
-			return nil, err
+		for try := 0; ; try++ {
+			ct, err = EncryptRaw(o.DataAlg, sym, plain, o.MutatePlain)
+			if err != nil {
+				return nil, err
+			}
+			if o.LastOctet == nil || (len(ct) > 0 && ct[len(ct)-1] == *o.LastOctet) || try > 20000 {
+				break
+			}
 		}
 	}
 	wrapSrc := sym
@@ -160,9 +167,14 @@ func (b *Builder) EncryptedAssertion(plain []byte, o EncOpts) (*etree.Element, e
 	if o.RawWrapped != nil {
 		wrapped = o.RawWrapped
 	} else {
-		wrapped, err = WrapKey(o.KeyTransport, o.Digest, o.Pub, wrapSrc)
-		if err != nil {
-			return nil, err
+		for try := 0; ; try++ {
+			wrapped, err = WrapKey(o.KeyTransport, o.Digest, o.Pub, wrapSrc)
+			if err != nil {
+				return nil, err
+			}
+			if o.WrapLastOctet == nil || (len(wrapped) > 0 && wrapped[len(wrapped)-1] == *o.WrapLastOctet) || try > 20000 {
+				break
+			}
 		}
 	}
 
